@@ -11,8 +11,10 @@
 //   (c) a QuantumExceeded (interruption) seen before the decision => Some(Ambig(_)), never Unique, never None
 //   (d) a Floundered first item => Some(Ambig(_))
 //   (e) an ambiguous first answer => never Unique
-// Bounded: stream length <= 3 (quick) / 4 (thorough); answers carry the empty
-// substitution (0 query variables), so the anti-unifier is not entered.
+// Streams are enumerated CONCRETELY by kani/gen_k12.py (a symbolic stream did not finish in 15
+// minutes): every stream of length <= 2 over the five items (quick), length 3 (thorough);
+// exhaustive below the bound.  Answers carry the empty substitution (a query without
+// unknowns), so the anti-unifier is not entered.
 use super::*;
 use crate::context::AnswerStream;
 use chalk_solve::rust_ir::*;
@@ -128,21 +130,16 @@ fn root_goal() -> UCanonical<InEnvironment<Goal<VerifIr>>> {
     }
 }
 
-fn make_solution_contract(len: usize) {
+fn make_solution_contract(items: [Item; MAXLEN], len: usize) {
     let db = MockDb;
     let ops = SlgContextOps::new(&db, 10, None);
     // (never dropped: the recursive drop glue of Goal/Ty is expensive for CBMC)
     let goal = core::mem::ManuallyDrop::new(root_goal());
-    let mut stream = MockStream { items: [kani::any(), kani::any(), kani::any(), kani::any()], len, pos: 0, quantum_seen: false };
+    let mut stream = MockStream { items, len, pos: 0, quantum_seen: false };
     let first = stream.at(0);
     let second = stream.at(1);
     let result_md = core::mem::ManuallyDrop::new(ops.make_solution(&goal, &mut stream, || true));
     let result: &Option<Solution<VerifIr>> = &result_md;
-
-    kani::cover!(result.is_none());
-    kani::cover!(matches!(result, Some(Solution::Unique(_))));
-    kani::cover!(matches!(result, Some(Solution::Ambig(_))));
-    kani::cover!(stream.quantum_seen);
 
     // (a)
     assert!(result.is_none() == (first == Item::NoMore), "None <=> no answers at all");
@@ -153,7 +150,8 @@ fn make_solution_contract(len: usize) {
         "Unique <=> exactly one unconditional answer"
     );
     if let Some(Solution::Unique(s)) = result {
-        assert!(*s == empty_subst(), "Unique carries the stream's answer unchanged");
+        let ok = s.binders.is_empty(VerifIr) && s.value.subst.is_empty(VerifIr) && s.value.constraints.is_empty(VerifIr);
+        assert!(ok, "Unique carries the stream's answer unchanged");
     }
     // (c)
     if stream.quantum_seen {
@@ -180,28 +178,4 @@ fn merge_stub<I: Interner>(
     guidance
 }
 
-#[kani::proof]
-#[kani::unwind(6)]
-#[kani::stub(SlgContextOps::identity_constrained_subst, identity_stub)]
-#[kani::stub(merge_into_guidance, merge_stub)]
-fn k12_make_solution_len2() {
-    let len: usize = kani::any_where(|l: &usize| *l <= 2);
-    make_solution_contract(len);
-}
-
-#[kani::proof]
-#[kani::unwind(6)]
-#[kani::stub(SlgContextOps::identity_constrained_subst, identity_stub)]
-#[kani::stub(merge_into_guidance, merge_stub)]
-fn k12_make_solution_len3() {
-    let len: usize = kani::any_where(|l: &usize| *l <= 3);
-    make_solution_contract(len);
-}
-
-#[kani::proof]
-#[kani::unwind(7)]
-#[kani::stub(SlgContextOps::identity_constrained_subst, identity_stub)]
-fn k12_make_solution_len4_thorough() {
-    let len: usize = kani::any_where(|l: &usize| *l <= 4);
-    make_solution_contract(len);
-}
+include!("/verif/kani/chalk_engine/k12_cases.rs");
